@@ -57,6 +57,20 @@ func genC16Case(t *rapid.T) *StructCase {
 		c.pickEntry(rapid.IntRange(0, 7).Draw(t, "entry"))
 		return c
 	}
+	if rapid.IntRange(0, 11).Draw(t, "taggedNamed") == 5 {
+		// named types that carry their rules (and the markers of nested validation) in TAGS: an override
+		// without the markers for a marked field switches the descent off for that field, also when the
+		// nested type has a rule set of its own in the same call
+		c = &StructCase{Root: desc.Ptr(desc.Named("EntsT")), Val: desc.V{E: []desc.V{genValueRT(t, lib.Types["EntsT"], 0, rapid.IntRange(2, 4).Draw(t, "tnDepth"))}}}
+		c.Unscoped = map[string]string{rapid.SampledFrom([]string{"First", "Items", "ByKey"}).Draw(t, "tnField"): rapid.SampledFrom([]string{"nosuch", "nosuch,Nope"}).Draw(t, "tnRule")}
+		c.PerType = map[string]map[string]string{"DirT": {"Note": "required|note by type set"}}
+		if rapid.Bool().Draw(t, "tnMore") {
+			c.PerType["DirT"]["Name"] = "to=1~2|name by type set"
+		}
+		c.CallFns = callFns
+		c.pickEntry(rapid.IntRange(0, 7).Draw(t, "entry"))
+		return c
+	}
 	if rapid.IntRange(0, 3).Draw(t, "mode") > 0 {
 		c = genNamedCase(t, namedOpts{roots: []string{"Top", "Mid", "Tree"}, marks: []string{"required", "exist", "required", "-"},
 			msgMode: 3, maxDepth: 3, density: 5, extra: c16Names, unscoped: true,
